@@ -330,7 +330,8 @@ type S3 struct {
 }
 
 // Reps lists the representations Build knows.
-var Reps = []string{"simple", "gen", "tslice", "array", "tmap", "struct", "pstruct", "keyed"}
+// ("tmap", typed maps, can be built too but is not in the list: the statement of C11 does not name typed maps.)
+var Reps = []string{"simple", "gen", "tslice", "array", "struct", "pstruct", "keyed"}
 
 // Build holds the tree n in representation rep. used reports whether the representation differs from
 // "simple" anywhere (otherwise the case adds nothing).
@@ -584,6 +585,9 @@ func FFilter(op, key string, c Node) Frag {
 }
 
 func num(v any) int { return int(toInt(v)) }
+
+// ToInt converts a decoded JSON number.
+func ToInt(v any) int64 { return toInt(v) }
 
 // SliceOf builds the jp.Slice an AST slice denotes (absent start with later parts present is 0, absent end
 // with a step present is jp's maxEnd: that is how the parser represents them).
